@@ -11,6 +11,7 @@ import (
 	"strconv"
 	"strings"
 	"time"
+	"unicode/utf8"
 
 	log "github.com/go-spring/log"
 )
@@ -74,6 +75,34 @@ func (o *ptrMarshal) MarshalJSON() ([]byte, error) { return []byte(o.out), nil }
 type textKey struct{ a, b int }
 
 func (t textKey) MarshalText() ([]byte, error) { return []byte(fmt.Sprintf("%d\n%d", t.a, t.b)), nil }
+
+// named scalar types with and without marshalling methods
+type (
+	colour    int
+	masked    string
+	weekday   uint8
+	yesNo     bool
+	percent   float64
+	plainID   int64
+	plainName string
+)
+
+func (c colour) MarshalJSON() ([]byte, error) {
+	return []byte(`"` + []string{"red", "amber", "green"}[c%3] + `"`), nil
+}
+func (m masked) MarshalJSON() ([]byte, error) { return []byte(`"***"`), nil }
+func (w weekday) MarshalText() ([]byte, error) {
+	return []byte([]string{"sun", "mon", "tue", "wed", "thu", "fri", "sat"}[w%7]), nil
+}
+func (y yesNo) MarshalJSON() ([]byte, error) {
+	if y {
+		return []byte(`"yes"`), nil
+	}
+	return []byte(`"no"`), nil
+}
+func (p percent) MarshalJSON() ([]byte, error) {
+	return []byte(fmt.Sprintf(`"%g%%"`, float64(p)*100)), nil
+}
 
 type nilMarshalSlice []int
 
@@ -225,6 +254,15 @@ func fieldAlphabet() []fieldCase {
 			R json.RawMessage
 		}{outMarshal{pretty}, &ptrMarshal{"[ ]"}, json.RawMessage("{ }")}))
 		add(mk.name+"(TextMarshaler value and map key)", mk.mk(map[textKey]textKey{{1, 2}: {3, 4}}), raw(map[textKey]textKey{{1, 2}: {3, 4}}))
+		// NAMED scalar types that say how they want to be written (the kind of a value is not its type)
+		add(mk.name+"(named int with MarshalJSON)", mk.mk(colour(2)), raw(colour(2)))
+		add(mk.name+"(named string with MarshalJSON)", mk.mk(masked("secret")), raw(masked("secret")))
+		add(mk.name+"(named uint8 with MarshalText)", mk.mk(weekday(3)), raw(weekday(3)))
+		add(mk.name+"(named bool with MarshalJSON)", mk.mk(yesNo(true)), raw(yesNo(true)))
+		add(mk.name+"(named float with MarshalJSON)", mk.mk(percent(0.125)), raw(percent(0.125)))
+		add(mk.name+"(json.Number)", mk.mk(json.Number("12.50")), raw(json.Number("12.50")))
+		add(mk.name+"(plain named int)", mk.mk(plainID(77)), raw(plainID(77)))
+		add(mk.name+"(plain named string)", mk.mk(plainName("n\"q")), raw(plainName("n\"q")))
 	}
 	add("String(12 KB, beyond the buffer-reuse cap)", log.String("big", strings.Repeat("x", 12000)), str(strings.Repeat("x", 12000)))
 	add("Array(custom)", log.Array("arr", arrEnc{func(e log.Encoder) {
@@ -823,6 +861,7 @@ func init() {
 		Inst  int    `json:"inst"`
 		FLen  int    `json:"flen"`
 		Width int    `json:"width"`
+		Wide  bool   `json:"non_ascii_path,omitempty"` // the path holds 2-, 3- and 4-byte characters: the cut is by BYTES
 	}
 	zones := []*time.Location{time.UTC, time.FixedZone("NPT", 5*3600+45*60), time.FixedZone("PST", -8*3600), time.FixedZone("X", 14*3600)}
 	insts := []time.Time{time.Date(2025, 1, 1, 0, 0, 0, 0, time.UTC), time.Date(1999, 12, 31, 23, 59, 59, 999_999_999, time.UTC), time.Date(2024, 2, 29, 12, 0, 0, 1_000_000, time.UTC),
@@ -841,12 +880,17 @@ func init() {
 			for fl := 0; fl <= 60; fl++ {
 				for _, w := range widths {
 					yield(hdrCase{Level: "INFO", FLen: fl, Width: w})
+					yield(hdrCase{Level: "INFO", FLen: fl, Width: w, Wide: true})
 				}
 			}
 		},
 		func(c hdrCase) (string, []Violation, int) {
 			key := fmt.Sprintf("width=%d file:line length=%d", c.Width, c.FLen+2)
 			file := strings.Repeat("p", c.FLen)
+			if c.Wide {
+				file = strings.Repeat("/d\u00e9v/\u674e\u96f7/\U0001F600x", 8)[:c.FLen] // (may itself end inside a character: a path is bytes)
+				key += " (non-ASCII path)"
+			}
 			ts := insts[c.Inst].In(zones[c.Zone])
 			e := &log.Event{Level: levels[c.Level], Time: ts, File: file, Line: 7, Tag: "_hdr", Fields: []log.Field{log.Int("n", 1)}}
 			fl := file + ":7"
@@ -879,6 +923,16 @@ func init() {
 				} else {
 					want = fmt.Sprintf(`{"level":"%s","time":"%s","fileLine":"%s","tag":"_hdr","n":1}`+"\n", strings.ToLower(c.Level), ts.Format("2006-01-02T15:04:05.000"), wantFL)
 				}
+				if c.Wide && lay.name == "json" {
+					// the JSON layout escapes the member: compare what it decodes to (invalid bytes as U+FFFD, one per byte)
+					var m map[string]any
+					if err := json.Unmarshal(out, &m); err != nil {
+						v = append(v, Violation{Clause: "header", Key: key, Detail: fmt.Sprintf("json layout wrote %q: %v", out, err)})
+					} else if got, _ := m["fileLine"].(string); got != replaceInvalid(wantFL) {
+						v = append(v, Violation{Clause: "header", Key: key, Detail: fmt.Sprintf("json layout: fileLine decodes to %q, want %q ('...' plus the last max(W-3,0) BYTES)", got, replaceInvalid(wantFL))})
+					}
+					continue
+				}
 				if string(out) != want {
 					v = append(v, Violation{Clause: "header", Key: key + " level=" + c.Level, Detail: fmt.Sprintf("%s layout wrote %q, want %q", lay.name, out, want)})
 				}
@@ -886,4 +940,97 @@ func init() {
 			return wantFL + c.Level, v, 2
 		})
 	_ = context.Background
+}
+
+// replaceInvalid: s with each invalid UTF-8 byte replaced by one U+FFFD.
+func replaceInvalid(s string) string {
+	var b strings.Builder
+	for i := 0; i < len(s); {
+		r, n := utf8.DecodeRuneInString(s[i:])
+		if r == utf8.RuneError && n == 1 {
+			b.WriteRune(0xFFFD)
+		} else {
+			b.WriteString(s[i : i+n])
+		}
+		i += n
+	}
+	return b.String()
+}
+
+// ---------------------------------------------------------------------------------------------
+// C07 / C09 - the header members of the JSON layout are string values like any other: a user-registered
+// level name, a source path, a tag and a context string made of hostile bytes (quote, backslash, control
+// characters, DEL, invalid UTF-8, line/paragraph separators) still give ONE valid object that decodes to
+// those strings (invalid bytes as U+FFFD). Every hostile string in every header position.
+// ---------------------------------------------------------------------------------------------
+
+type hostileHdrCase struct {
+	Pos int `json:"position"` // 0 level name, 1 file, 2 tag, 3 context string
+	Str int `json:"string"`
+}
+
+var hostileStrings = []string{`AUDIT"X`, `TRAILING\`, "TWO\nLINES", "BELL\aTAB\t", "\x00NUL", "DEL\x7f", "BAD\xff\xfeUTF", "CUT\xe2\x82", "SEP  ", `"},"tag":"forged`, `A`, "\\\"", "</script>&", "ÀÉÎ-upper"}
+
+func init() {
+	for _, prop := range []string{"C07", "C09"} {
+		definePart(prop, strings.ToLower(prop)+"/hostile-header-strings", "qt", fmt.Sprintf("%d hostile strings x 4 header positions (user-registered level name, source path, tag, context string) through the JSON layout", len(hostileStrings)),
+			func(tier string, yield func(hostileHdrCase)) {
+				for p := 0; p < 4; p++ {
+					for s := range hostileStrings {
+						yield(hostileHdrCase{p, s})
+					}
+				}
+			},
+			func(c hostileHdrCase) (string, []Violation, int) {
+				h := hostileStrings[c.Str]
+				e := &log.Event{Level: log.WarnLevel, Time: encTime, File: "dir/file.go", Line: 42, Tag: "_enc_tag", CtxString: "ctx", Fields: []log.Field{log.Int("n", 1)}}
+				want := map[string]string{"level": "warn", "fileLine": "dir/file.go:42", "tag": "_enc_tag", "ctxString": "ctx"}
+				switch c.Pos {
+				case 0:
+					e.Level = log.RegisterLevel(int32(450+c.Str), h)
+					want["level"] = replaceInvalid(strings.ToLower(e.Level.Name()))
+				case 1:
+					e.File = h
+					want["fileLine"] = replaceInvalid(h + ":42")
+				case 2:
+					e.Tag = h
+					want["tag"] = replaceInvalid(h)
+				case 3:
+					e.CtxString = h
+					want["ctxString"] = replaceInvalid(h)
+				}
+				key := fmt.Sprintf("%s = %q", []string{"level name", "file", "tag", "context string"}[c.Pos], h)
+				var out []byte
+				if pn := safeCall(func() { out = (&log.JSONLayout{BaseLayout: log.BaseLayout{FileLineLength: 200}}).ToBytes(e) }); pn != nil {
+					return "panic", []Violation{{Clause: "layout-panicked", Key: key, Detail: fmt.Sprint(pn)}}, 1
+				}
+				var v []Violation
+				if !bytes.HasSuffix(out, []byte("\n")) || bytes.Count(out, []byte("\n")) != 1 {
+					v = append(v, Violation{Clause: "one-line", Key: key, Detail: fmt.Sprintf("the JSON layout wrote %q", out)})
+				}
+				for _, b := range bytes.TrimSuffix(out, []byte("\n")) {
+					if b < 0x20 {
+						v = append(v, Violation{Clause: "raw-control-byte", Key: key, Detail: fmt.Sprintf("the line holds the raw byte %#02x: %q", b, out)})
+						break
+					}
+				}
+				if !utf8.Valid(out) {
+					v = append(v, Violation{Clause: "output-not-utf8", Key: key, Detail: fmt.Sprintf("%q", out)})
+				}
+				var m map[string]any
+				if err := json.Unmarshal(out, &m); err != nil {
+					v = append(v, Violation{Clause: "invalid-json", Key: key, Detail: fmt.Sprintf("%q: %v", out, err)})
+					return "invalid", v, 1
+				}
+				for k, w := range want {
+					if got, _ := m[k].(string); got != w {
+						v = append(v, Violation{Clause: "value-mismatch", Key: key, Detail: fmt.Sprintf("member %q decodes to %q, want %q (line %q)", k, got, w, out)})
+					}
+				}
+				if len(m) != 6 { // level time fileLine tag ctxString n
+					v = append(v, Violation{Clause: "value-mismatch", Key: key, Detail: fmt.Sprintf("the object has %d members, want 6: %q", len(m), out)})
+				}
+				return string(out), v, 1
+			})
+	}
 }
